@@ -105,6 +105,10 @@ func (q *Q) Sexp() string {
 		return "(call0 " + q.F + ")"
 	case "binop":
 		return "(binop " + q.F + " " + q.SA.Sexp() + " " + q.SB.Sexp() + ")"
+	case "def":
+		return fmt.Sprintf("(def %d %s %s)", q.N, q.A.Sexp(), q.B.Sexp())
+	case "callf":
+		return fmt.Sprintf("(callf %d)", q.N)
 	}
 	panic(q.K)
 }
@@ -163,7 +167,7 @@ func (q *Q) P(r *Rng) string {
 			return "(" + valJq(q.V) + ")"
 		}
 		return valJq(q.V)
-	case "empty", "var", "call0", "break", "arr":
+	case "empty", "var", "call0", "break", "arr", "callf":
 		return q.T(r)
 	case "iter", "index":
 		if q.A.K == "id" {
@@ -237,6 +241,10 @@ func (q *Q) T(r *Rng) string {
 		return q.F
 	case "binop":
 		return q.SA.P(r) + " " + opSym[q.F] + " " + q.SB.P(r)
+	case "def":
+		return fmt.Sprintf("def f%d: %s; %s", q.N, q.A.T(r), q.B.T(r))
+	case "callf":
+		return fmt.Sprintf("f%d", q.N)
 	}
 	panic(q.K)
 }
@@ -251,19 +259,28 @@ func (q *Q) msgfree() bool {
 		return false
 	case "call0":
 		return q.F == "error"
+	case "callf":
+		return false
 	}
 	return q.A.msgfree() && q.B.msgfree() && q.C.msgfree() && q.D.msgfree() && q.SA.msgfree() && q.SB.msgfree()
 }
 
 // ---- generation ----
-type scope struct{ vars, lbls []int }
+type scope struct{ vars, lbls, funcs []int }
 
 func (s scope) withVar(n int) scope {
-	return scope{append(append([]int{}, s.vars...), n), s.lbls}
+	return scope{append(append([]int{}, s.vars...), n), s.lbls, s.funcs}
 }
 func (s scope) withLbl(n int) scope {
-	return scope{s.vars, append(append([]int{}, s.lbls...), n)}
+	return scope{s.vars, append(append([]int{}, s.lbls...), n), s.funcs}
 }
+func (s scope) withFunc(n int) scope {
+	return scope{s.vars, s.lbls, append(append([]int{}, s.funcs...), n)}
+}
+
+// the scope of a function body: the variables and functions visible at the definition, no label (the model
+// excludes a break from a function body to a label around the definition)
+func (s scope) body() scope { return scope{s.vars, nil, s.funcs} }
 
 var constPool = []any{nil, true, false, 0, 1, 2, -1, "a", "b", []any{}, map[string]any{},
 	[]any{1, 2}, []any{nil, 3}, []any{[]any{1}, "a"}, map[string]any{"a": 1}, map[string]any{"a": []any{1, 2}, "b": nil}}
@@ -286,6 +303,9 @@ func leaves(s scope, small bool) []*Q {
 	}
 	for _, l := range s.lbls {
 		out = append(out, &Q{K: "break", N: l})
+	}
+	for _, f := range s.funcs {
+		out = append(out, &Q{K: "callf", N: f})
 	}
 	if small {
 		out = append(out, &Q{K: "binop", F: "add", SA: &Q{K: "id"}, SB: &Q{K: "c", V: 1}},
@@ -461,6 +481,12 @@ func randQ(r *Rng, budget int, s scope) *Q {
 	}
 	b := budget - 1
 	split := func() (int, int) { x := 1 + r.Intn(max(1, b-1)); return x, max(1, b-x) }
+	if len(s.funcs) < 3 && r.Chance(1, 9) {
+		// a non-recursive definition: the body sees the earlier functions and the variables, not itself
+		x, y := split()
+		n := len(s.funcs)
+		return &Q{K: "def", N: n, A: randQ(r, x, s.body()), B: randQ(r, y, s.withFunc(n))}
+	}
 	switch r.Intn(20) {
 	case 17, 18, 19:
 		x, y := split()
@@ -524,6 +550,57 @@ func randQ(r *Rng, budget int, s scope) *Q {
 		n := r.Intn(2)
 		return &Q{K: "bind", A: randQ(r, x, s), N: n, B: randQ(r, y, s.withVar(n))}
 	}
+}
+
+// terminating recursive definitions (the recursion is guarded by `. < k`, which fails for strings, arrays and
+// objects and after at most k+1 increments otherwise; `. + 1` on a boolean raises)
+func recProg(r *Rng) *Q {
+	id := func() *Q { return &Q{K: "id"} }
+	c := func(v any) *Q { return &Q{K: "c", V: v} }
+	bin := func(f string, a, b *Q) *Q { return &Q{K: "binop", F: f, SA: a, SB: b} }
+	pipe := func(a, b *Q) *Q { return &Q{K: "pipe", A: a, B: b} }
+	k := 1 + r.Intn(3)
+	call := &Q{K: "callf", N: 0}
+	step := pipe(bin("add", id(), c(1)), call)
+	guard := bin("lt", id(), c(k))
+	var body *Q
+	switch r.Intn(9) {
+	case 8: // tail call in a function whose scope has no variable: optimizeTailRec turns it into a jump
+		body = &Q{K: "if", A: &Q{K: "index", A: id(), V: 0}, B: pipe(&Q{K: "index", A: id(), V: 1}, call), C: id()}
+	case 0: // tail call, a variable of the operator in the function scope: opcallrec
+		body = &Q{K: "if", A: guard, B: step, C: id()}
+	case 1: // tail call, a variable in the function scope: opcallrec
+		v := &Q{K: "var", N: 0}
+		body = &Q{K: "bind", A: id(), N: 0, B: &Q{K: "if", A: bin("lt", v, c(k)), B: pipe(bin("add", v, c(1)), call), C: v}}
+	case 2: // generator recursion, the call is not last
+		body = &Q{K: "if", A: guard, B: &Q{K: "comma", A: step, B: id()}, C: id()}
+	case 3: // the call is last after a comma
+		body = &Q{K: "if", A: guard, B: &Q{K: "comma", A: id(), B: step}, C: &Q{K: "empty"}}
+	case 4: // the call inside an operand closure
+		body = &Q{K: "if", A: guard, B: bin("add", c(10), step), C: c(0)}
+	case 5: // tail call below try: not a tail call
+		body = &Q{K: "if", A: guard, B: &Q{K: "try", A: step, B: c("h")}, C: &Q{K: "call0", F: "error"}}
+	case 6: // a random body around the recursion
+		body = &Q{K: "if", A: guard, B: pipe(step, randQ(r, 1+r.Intn(4), scope{})), C: randQ(r, 1+r.Intn(4), scope{})}
+	default: // tail call in both branches of a nested if
+		body = &Q{K: "if", A: guard, B: &Q{K: "if", A: bin("lt", id(), c(1)), B: step, C: pipe(bin("add", id(), c(2)), call)}, C: id()}
+	}
+	var rest *Q
+	switch r.Intn(4) {
+	case 0:
+		rest = call
+	case 1:
+		rest = pipe(randQ(r, 1+r.Intn(3), scope{}), call)
+	case 2:
+		rest = &Q{K: "arr", A: pipe(&Q{K: "comma", A: c(0), B: id()}, call)}
+	default:
+		rest = bin("add", call, pipe(c(1), call))
+	}
+	q := &Q{K: "def", N: 0, A: body, B: rest}
+	if r.Chance(1, 3) { // a second function that calls the first
+		q = &Q{K: "def", N: 0, A: body, B: &Q{K: "def", N: 1, A: pipe(call, bin("add", id(), c(100))), B: &Q{K: "comma", A: &Q{K: "callf", N: 1}, B: rest}}}
+	}
+	return q
 }
 
 var inputs = []any{nil, true, 0, 1, "a", []any{}, []any{1, 2}, []any{nil, false, 3}, []any{[]any{1, 2}, []any{3}},
@@ -688,6 +765,9 @@ func runC01vm(c *Ctx) {
 			q = &Q{K: "pipe", A: q, B: &Q{K: "iter", A: &Q{K: "id"}}}
 		}
 		doProgram(c, q, r, 2, seen)
+	}
+	for i := 0; i < c.N/10; i++ {
+		doProgram(c, recProg(r), r, len(inputs), seen)
 	}
 	for i := 0; i < c.N; i++ {
 		budget := 3 + r.Intn(22)
